@@ -156,7 +156,10 @@ fn src(d: &[u8], rbuf: u32) -> Src {
 /// count-only drain (no harness allocation proportional to the items): (ok, err, capped)
 fn drain_count<S, I: Iterator<Item = Result<S, shapefile::Error>>>(it: I, cap: usize) -> (usize, usize, bool) {
     let (mut ok, mut err) = (0, 0);
-    for x in it {
+    let mut it = it;
+    loop {
+        let _ = it.size_hint();
+        let Some(x) = it.next() else { break };
         if ok + err >= cap {
             return (ok, err, true);
         }
